@@ -539,6 +539,11 @@ struct Env {
     in_hand: Option<usize>,
     wk_at_accept: usize,
     wk_pushed_since: usize,
+    /// connections that were accepted and never sent, found when the NEXT connection was accepted:
+    /// (cid, replacement handles queued at its accept, replacement handles pushed since then (at that time), faults reported by then)
+    pending_drops: Vec<(usize, usize, usize, usize)>,
+    wk_pushed_total: usize,
+    wk_total_at_accept: usize,
     points: Vec<(String, usize)>,
     anchored: Vec<(String, usize, Act, bool)>, // kind, nth (1-based, per iteration), action, fired
     point_counts: HashMap<String, usize>,
@@ -774,6 +779,7 @@ impl Env {
                 };
                 self.wq.wake(WakerInterest::Worker(handle));
                 self.wk_pushed_since += 1;
+                self.wk_pushed_total += 1;
             }
             Act::Pause => self.wq.wake(WakerInterest::Pause),
             Act::Resume => self.wq.wake(WakerInterest::Resume),
@@ -1097,6 +1103,9 @@ impl Sim {
             in_hand: None,
             wk_at_accept: 0,
             wk_pushed_since: 0,
+            pending_drops: vec![],
+            wk_pushed_total: 0,
+            wk_total_at_accept: 0,
             points: vec![],
             anchored: vec![],
             point_counts: HashMap::new(),
@@ -1205,8 +1214,16 @@ impl Sim {
                 let mut e = env.borrow_mut();
                 let cid = e.cid_of_peer(&peer);
                 if cid >= 0 {
+                    if let Some(prev) = e.in_hand.take() {
+                        // the previous connection was accepted and never sent: the accept thread dropped it.  Whether a
+                        // handle was left at that moment is worked out at the end of the iteration
+                        e.collect_faults();
+                        let rec = (prev, e.wk_at_accept, e.wk_total_at_accept, e.faults.len());
+                        e.pending_drops.push(rec);
+                    }
                     e.accepted.push(cid as usize);
                     e.in_hand = Some(cid as usize);
+                    e.wk_total_at_accept = e.wk_pushed_total;
                     // replacement handles still waiting in the waker queue while this connection is in hand
                     let n = e.wq.guard().iter().filter(|i| matches!(i, WakerInterest::Worker(_))).count();
                     e.wk_at_accept = n;
@@ -1245,15 +1262,26 @@ impl Sim {
             Ok(e) => e,
             Err(_) => return 0, // a panic unwound through the callback while env was borrowed
         };
+        // connections accepted and never sent.  Handles at the moment of a drop = handles now - (replacement handles the
+        // accept thread took off the waker queue after that connection was accepted: no waker handling happens between an
+        // accept and the end of accept_one) + (handles removed by faults found after the drop)
         if let Some(cid) = e.in_hand.take() {
-            // handles at the moment of the drop = handles now minus the replacement handles the accept thread took off the
-            // waker queue AFTER this connection was accepted (a replacement stored later in the same iteration does not
-            // make the drop a wrong one)
+            e.collect_faults();
+            let rec = (cid, e.wk_at_accept, e.wk_total_at_accept, e.faults.len());
+            e.pending_drops.push(rec);
+        }
+        if !e.pending_drops.is_empty() {
             let wk_now = e.wq.guard().iter().filter(|i| matches!(i, WakerInterest::Worker(_))).count();
-            let popped_after = (e.wk_at_accept + e.wk_pushed_since).saturating_sub(wk_now);
-            let handles_now = self.st.snapshot(e.cfg.workers).handles.len();
-            let no_handle = handles_now <= popped_after;
-            e.dropped.push((cid, no_handle));
+            let handles_now = self.st.snapshot(e.cfg.workers).handles.len() as i64;
+            let faults_now = e.faults.len() as i64;
+            let pushed_total = e.wk_pushed_total;
+            let pend: Vec<_> = e.pending_drops.drain(..).collect();
+            for (cid, wk_at, total_at, faults_then) in pend {
+                let popped_after = (wk_at + (pushed_total - total_at)) as i64 - wk_now as i64;
+                let removed_after = faults_now - faults_then as i64;
+                let handles_at_drop = handles_now - popped_after.max(0) + removed_after.max(0);
+                e.dropped.push((cid, handles_at_drop <= 0));
+            }
         }
         let missed: Vec<(usize, Act)> = e
             .anchored
